@@ -131,7 +131,7 @@ predicate:
 		var err error
 		$$, err = ast.NewRegex($1, $3, "")
 		if err != nil {
-			pathlex.Error(err.Error())
+			$$ = pathlex.(*lexer).regexError($1, err)
 		}
 	}
 	| expr LIKE_REGEX_P STRING_P FLAG_P STRING_P
@@ -139,7 +139,7 @@ predicate:
 		var err error
 		$$, err = ast.NewRegex($1, $3, $5)
 		if err != nil {
-			pathlex.Error(err.Error())
+			$$ = pathlex.(*lexer).regexError($1, err)
 		}
 	}
 	;
